@@ -3,6 +3,7 @@ package main
 // Workspace-index rules for C12 (DESIGN §3.F T1, T2 and §5 C12-CLEAR / C12-REFRESH).
 
 import (
+	"golang.org/x/tools/go/ssa"
 	"fmt"
 	"go/ast"
 	"go/token"
@@ -523,6 +524,50 @@ func ruleT1T2(c *Ctx) {
 	if addFd == nil || remFd == nil || addFd == remFd {
 		c.undecided("T1", "workspace", "index add/remove pair", token.NoPos, "could not identify the add and remove methods of the workspace index (methods taking (path string, *FileIndex) that set / delete the per-file slot)")
 		return
+	}
+	// T1-SLOT: the per-file slot is written in one place only - the add method (or one helper of it).  A second
+	// function that swaps a file's entry directly bypasses the add/remove pair and with it everything that is
+	// recomputed there (aggregates, derived lists, payee templates).
+	{
+		wpk := c.P.SSAPkg("internal/workspace")
+		storing := map[*ssa.Function]token.Pos{}
+		for _, f := range c.P.ModuleFuncs() {
+			top := f
+			for top.Parent() != nil {
+				top = top.Parent()
+			}
+			if top.Pkg != wpk {
+				continue
+			}
+			for _, b := range f.Blocks {
+				for _, ins := range b.Instrs {
+					mu, ok := ins.(*ssa.MapUpdate)
+					if !ok {
+						continue
+					}
+					mt, ok := mu.Map.Type().Underlying().(*types.Map)
+					if !ok {
+						continue
+					}
+					pt, ok := mt.Elem().Underlying().(*types.Pointer)
+					if !ok || !typeHasSuffix(pt.Elem(), "workspace.FileIndex") {
+						continue
+					}
+					if fv := mapFieldOf(mu.Map); fv == nil {
+						continue // a local map, not the index's slot table
+					}
+					storing[f] = mu.Pos()
+				}
+			}
+		}
+		var names []string
+		for f := range storing {
+			names = append(names, funcName(f))
+		}
+		sort.Strings(names)
+		c.check(len(storing) == 1, "T1", "workspace", "the per-file slot is written in one place", token.NoPos,
+			"one function stores a file's index in the slot table: "+strings.Join(names, ", "),
+			"a file's entry in the index's slot table is stored by "+fmt.Sprint(len(storing))+" functions ("+strings.Join(names, ", ")+"): a store outside the add method bypasses the add/remove pair, so aggregates and lists derived from the file's content are not recomputed")
 	}
 	recvName := recvTypeName(addFd)
 	// derived: methods on the same receiver called by BOTH add and remove (unconditionally, top level)
